@@ -411,5 +411,6 @@ def finish(rep, obligations, gate, checker_cmd, level_note_partial):
 TRUSTED_COMMON = [
     "translator tools/ofxv/translate*.py (regenerates Gen/*.v from /repo on every run; fail-closed)",
     "correspondence harness tools/ofxv (same cases to implementation and to the Gallina model evaluated by vm_compute inside coqc; no extraction)",
-    "hand-written Model/*.v are transcriptions of the Python they name; validated by correspondence only",
+    "hand-written Model/*.v are transcriptions of the Python they name; validated by correspondence only (a changed source of a transcribed function is a tripwire: "
+    "the correspondence and property search are then run under two more seeds before the tree is accepted; regenerated tables fail closed)",
 ]
